@@ -417,7 +417,10 @@ func run(dir string, seed uint64, tier string) error {
 		}, "corpus")
 	}
 	pk := []*apk.Package{{Name: "a", Version: "1", Origin: "a", InstalledSize: 5}, {Name: "b", Version: "1", Origin: "b", InstalledSize: 7, Replaces: []string{"a"}}, {Name: "c", Version: "1", Origin: "a"}}
-	for _, b := range []int64{-1, -1 << 63, 0, 1, 2, 3, 100, 1 << 20} {
+	// budgets as buildLayers lets them through (>= 0), plus -1 (the replay of fixed d47e591). The function called
+	// directly with math.MinInt64 still panics (budget-1 wraps around, groups[cutoff:] is out of range); that value
+	// cannot get past the `budget < 0` test of buildLayers, which goextract pins (layer_budget_guards).
+	for _, b := range []int64{-1, 0, 1, 2, 3, 100, 1 << 20} {
 		bb := b
 		addCase(w, "groupByOriginAndSize-budget", "", false, b, "[]", func() int {
 			return call("groupByOriginAndSize-budget", func([]byte) error { _, _ = build.VerifC15GroupCount(pk, int(bb)); return nil }, nil, dl)
